@@ -81,7 +81,7 @@ func RefFlow(p *Program, s *Scenario, exec uint64) *FlowRef {
 			}
 		}
 		fbTok := func(i int) uint64 {
-			if p.Types[t.Fn.Outs[i]] == KF64 {
+			if p.ConstFB(t.Fn.Outs[i]) {
 				return ConstFBTok(p.Name, t.Fn.ID, i)
 			}
 			return FallbackTok(exec, t.Fn.ID, i)
